@@ -5,7 +5,7 @@
 
   The specification (`pyIndices`, `pyWalk`) is in `Jmes/Spec/Slice.lean`, independent of the model.
 -/
-import Jmes.Model.Slice
+import Jmes.Model.Api
 import Jmes.Spec.Slice
 namespace Jmes.C12
 open Jmes.Spec
@@ -97,30 +97,625 @@ theorem clamp1_char (n s e : Int) (hn : 0 ≤ n) :
   by_cases h4 : e < 0 <;> by_cases h5 : e < -n <;> by_cases h6 : e ≥ n <;>
   simp only [h1, h2, h3, h4, h5, h6, if_true, if_false] <;> (try split) <;> omega
 
-theorem clampStep_pos_char (n s e step : Int) (hn : 0 ≤ n) (hstep : step > 0) :
-    match clampStep n s e step with
-    | none => pyAdjust n 0 n e ≤ pyAdjust n 0 n s
-    | some (a, cnt) => a = pyAdjust n 0 n s ∧ pyAdjust n 0 n s < pyAdjust n 0 n e ∧
-        ∃ c, c = pyAdjust n 0 n e - pyAdjust n 0 n s ∧ cnt = ceilDiv c step := by
-  unfold clampStep pyAdjust
+/-- closes `a = A ∧ A < B ∧ cnt = ceilDiv (B - A) d` once `a`, `cnt` have been substituted -/
+local macro "c12_fin" : tactic =>
+  `(tactic| (refine ⟨by omega, by omega, ?_⟩; show ceilDiv _ _ = ceilDiv _ _; congr 1; omega))
+
+theorem clampStep_pos_none (n s e step : Int) (hn : 0 ≤ n) (hstep : step > 0)
+    (h : clampStep n s e step = none) : pyAdjust n 0 n e ≤ pyAdjust n 0 n s := by
+  unfold clampStep at h
+  unfold pyAdjust; dsimp only
   by_cases h1 : s < 0 <;> by_cases h2 : s < -n <;> by_cases h3 : s ≥ n <;>
   by_cases h4 : e < 0 <;> by_cases h5 : e < -n <;> by_cases h6 : e > n <;>
-  simp only [hstep, h1, h2, h3, h4, h5, h6, if_true, if_false] <;> (try split) <;>
+  simp only [hstep, h1, h2, h3, h4, h5, h6, if_true, if_false] at h <;>
   first
   | omega
-  | (refine ⟨?_, ?_, _, ?_, rfl⟩ <;> omega)
+  | (split at h <;> first | omega | cases h)
 
-theorem clampStep_neg_char (n s e step : Int) (hn : 0 ≤ n) (hstep : ¬ step > 0) :
-    match clampStep n s e step with
-    | none => pyAdjust n (-1) (n - 1) s ≤ pyAdjust n (-1) (n - 1) e
-    | some (a, cnt) => a = pyAdjust n (-1) (n - 1) s ∧ pyAdjust n (-1) (n - 1) e < pyAdjust n (-1) (n - 1) s ∧
-        ∃ c, c = pyAdjust n (-1) (n - 1) s - pyAdjust n (-1) (n - 1) e ∧ cnt = ceilDiv c (wrap64 (step * -1)) := by
-  unfold clampStep pyAdjust
+theorem clampStep_pos_some (n s e step a cnt : Int) (hn : 0 ≤ n) (hstep : step > 0)
+    (h : clampStep n s e step = some (a, cnt)) :
+    a = pyAdjust n 0 n s ∧ pyAdjust n 0 n s < pyAdjust n 0 n e ∧
+      cnt = ceilDiv (pyAdjust n 0 n e - pyAdjust n 0 n s) step := by
+  unfold clampStep at h
+  unfold pyAdjust; dsimp only
+  by_cases h1 : s < 0 <;> by_cases h2 : s < -n <;> by_cases h3 : s ≥ n <;>
+  by_cases h4 : e < 0 <;> by_cases h5 : e < -n <;> by_cases h6 : e > n <;>
+  simp only [hstep, h1, h2, h3, h4, h5, h6, if_true, if_false] at h <;>
+  first
+  | (exfalso; omega)
+  | (cases h; done)
+  | (cases h; c12_fin)
+  | (split at h <;> first | (cases h; done) | (cases h; c12_fin))
+
+theorem clampStep_neg_none (n s e step : Int) (hn : 0 ≤ n) (hstep : ¬ step > 0)
+    (h : clampStep n s e step = none) : pyAdjust n (-1) (n - 1) s ≤ pyAdjust n (-1) (n - 1) e := by
+  unfold clampStep at h
+  unfold pyAdjust; dsimp only
   by_cases h1 : s < 0 <;> by_cases h2 : s < -n <;> by_cases h3 : s ≥ n <;>
   by_cases h4 : e < 0 <;> by_cases h5 : e < -n <;> by_cases h6 : e ≥ n <;>
-  simp only [hstep, h1, h2, h3, h4, h5, h6, if_true, if_false] <;> (try split) <;>
+  simp only [hstep, h1, h2, h3, h4, h5, h6, if_true, if_false] at h <;>
   first
   | omega
-  | (refine ⟨?_, ?_, _, ?_, rfl⟩ <;> omega)
+  | (split at h <;> first | omega | cases h)
+
+theorem clampStep_neg_some (n s e step a cnt : Int) (hn : 0 ≤ n) (hstep : ¬ step > 0)
+    (h : clampStep n s e step = some (a, cnt)) :
+    a = pyAdjust n (-1) (n - 1) s ∧ pyAdjust n (-1) (n - 1) e < pyAdjust n (-1) (n - 1) s ∧
+      cnt = ceilDiv (pyAdjust n (-1) (n - 1) s - pyAdjust n (-1) (n - 1) e) (wrap64 (step * -1)) := by
+  unfold clampStep at h
+  unfold pyAdjust; dsimp only
+  by_cases h1 : s < 0 <;> by_cases h2 : s < -n <;> by_cases h3 : s ≥ n <;>
+  by_cases h4 : e < 0 <;> by_cases h5 : e < -n <;> by_cases h6 : e ≥ n <;>
+  simp only [hstep, h1, h2, h3, h4, h5, h6, if_true, if_false] at h <;>
+  first
+  | (exfalso; omega)
+  | (cases h; done)
+  | (cases h; c12_fin)
+  | (split at h <;> first | (cases h; done) | (cases h; c12_fin))
+
+theorem pyAdjust_bounds (n lo hi v : Int) (h : lo ≤ hi) : lo ≤ pyAdjust n lo hi v ∧ pyAdjust n lo hi v ≤ hi := by
+  unfold pyAdjust; dsimp only; omega
+
+/-- An absent bound and its sentinel encoding are clamped to the same value: Python's defaults are what the sentinels
+    clamp to. (This is also why an explicit bound *equal* to a sentinel behaves as an absent one.) -/
+theorem pyIndices_enc (n : Int) (s? e? : Option Int) (step : Int) (hn : 0 ≤ n) (hM : n ≤ MaxInt) :
+    pyIndices n s? e? step =
+      if step > 0 then (pyAdjust n 0 n (encStart step s?), pyAdjust n 0 n (encStop step e?), step)
+      else (pyAdjust n (-1) (n - 1) (encStart step s?), pyAdjust n (-1) (n - 1) (encStop step e?), step) := by
+  have a1 : pyAdjust n 0 n 0 = 0 := by unfold pyAdjust; dsimp only; omega
+  have a2 : pyAdjust n 0 n MaxInt = n := by
+    unfold pyAdjust; simp only [MaxInt] at *; omega
+  have a3 : pyAdjust n (-1) (n - 1) MaxInt = n - 1 := by
+    unfold pyAdjust; simp only [MaxInt] at *; omega
+  have a4 : pyAdjust n (-1) (n - 1) MinInt = -1 := by
+    unfold pyAdjust; simp only [MaxInt, MinInt] at *; omega
+  unfold pyIndices
+  split <;> rename_i hs
+  · cases s? <;> cases e? <;> simp only [encStart, encStop, hs, if_true, a1, a2]
+  · cases s? <;> cases e? <;> simp only [encStart, encStop, hs, if_false, a3, a4]
+
+theorem pyCount_one (a b : Int) : (pyCount a b 1).toNat = (b - a).toNat := by
+  unfold pyCount
+  simp only [show (1 : Int) > 0 by omega, if_true]
+  split <;> omega
+
+/-! ## C12: the clamps select the Python walk -/
+
+/--
+  `clamp1_spec`: for every length `0 ≤ n ≤ MaxInt` and all optional bounds (any integers; in particular all 64-bit
+  ones), handed over in the sentinel encoding of step 1, the indices `a, a+1, …, b-1` selected by `clamp1` (none when it
+  returns `none` or `a ≥ b`) are exactly the Python walk.
+-/
+theorem clamp1_spec (n : Int) (s? e? : Option Int) (hn : 0 ≤ n) (hM : n ≤ MaxInt) :
+    walk1 (clamp1 n (encStart 1 s?) (encStop 1 e?)) = pyWalk n s? e? 1 := by
+  unfold pyWalk
+  rw [pyIndices_enc n s? e? 1 hn hM]
+  simp only [show (1 : Int) > 0 by omega, if_true, pyCount_one, Int.mul_one]
+  have h := clamp1_char n (encStart 1 s?) (encStop 1 e?) hn
+  generalize pyAdjust n 0 n (encStart 1 s?) = A at *
+  generalize pyAdjust n 0 n (encStop 1 e?) = B at *
+  cases hc : clamp1 n (encStart 1 s?) (encStop 1 e?) with
+  | none =>
+    rw [hc] at h
+    simp only at h
+    have : (B - A).toNat = 0 := by omega
+    simp only [walk1, this, List.range_zero, List.map_nil]
+  | some ab =>
+    obtain ⟨a, b⟩ := ab
+    rw [hc] at h
+    simp only at h
+    obtain ⟨rfl, rfl⟩ := h
+    rfl
+
+/-- the explicit-value instance: both bounds given (any integers), no sentinel involved, no bound on `n` needed -/
+theorem clamp1_spec_explicit (n start stop : Int) (hn : 0 ≤ n) :
+    walk1 (clamp1 n start stop) = pyWalk n (some start) (some stop) 1 := by
+  unfold pyWalk pyIndices
+  simp only [show (1 : Int) > 0 by omega, if_true, pyCount_one, Int.mul_one]
+  have h := clamp1_char n start stop hn
+  generalize pyAdjust n 0 n start = A at *
+  generalize pyAdjust n 0 n stop = B at *
+  cases hc : clamp1 n start stop with
+  | none =>
+    rw [hc] at h
+    simp only at h
+    have : (B - A).toNat = 0 := by omega
+    simp only [walk1, this, List.range_zero, List.map_nil]
+  | some ab =>
+    obtain ⟨a, b⟩ := ab
+    rw [hc] at h
+    simp only at h
+    obtain ⟨rfl, rfl⟩ := h
+    rfl
+
+/-- the absent/absent instance `[:]`: the sentinels `0` and `MaxInt` select `0, …, n-1` -/
+theorem clamp1_spec_absent (n : Int) (hn : 0 ≤ n) (hM : n ≤ MaxInt) :
+    walk1 (clamp1 n 0 MaxInt) = pyWalk n none none 1 :=
+  clamp1_spec n none none hn hM
+
+example : walk1 (clamp1 5 (-4) 4) = [1, 2, 3] ∧ pyWalk 5 (some (-4)) (some 4) 1 = [1, 2, 3] := by decide
+example : walk1 (clamp1 5 0 MaxInt) = [0, 1, 2, 3, 4] ∧ pyWalk 5 none none 1 = [0, 1, 2, 3, 4] := by decide
+example : walk1 (clamp1 5 3 MaxInt) = pyWalk 5 (some 3) none 1 := clamp1_spec 5 (some 3) none (by decide) (by decide)
+
+/--
+  `clampStep_spec`: for every length `0 ≤ n ≤ MaxInt`, every step `≠ 0` with `MinInt ≤ step` (so every non-zero 64-bit
+  step, including `MinInt` whose negation wraps) and all optional bounds in the sentinel encoding of that step, the
+  indices `a, a+step, …` (`cnt` of them) selected by `clampStep` are exactly the Python walk.
+-/
+theorem clampStep_spec (n : Int) (s? e? : Option Int) (step : Int) (hn : 0 ≤ n) (hM : n ≤ MaxInt)
+    (h0 : step ≠ 0) (hmin : MinInt ≤ step) :
+    walkStep step (clampStep n (encStart step s?) (encStop step e?) step) = pyWalk n s? e? step := by
+  unfold pyWalk
+  rw [pyIndices_enc n s? e? step hn hM]
+  by_cases hp : step > 0
+  · simp only [hp, if_true]
+    have h1 := clampStep_pos_none n (encStart step s?) (encStop step e?) step hn hp
+    have h2 := clampStep_pos_some n (encStart step s?) (encStop step e?) step
+    generalize pyAdjust n 0 n (encStart step s?) = A at *
+    generalize pyAdjust n 0 n (encStop step e?) = B at *
+    cases hc : clampStep n (encStart step s?) (encStop step e?) step with
+    | none =>
+      have := h1 hc
+      have : pyCount A B step = 0 := by
+        unfold pyCount; simp only [hp, if_true]; split <;> omega
+      simp only [walkStep, this, Int.toNat_zero, List.range_zero, List.map_nil]
+    | some ab =>
+      obtain ⟨a, cnt⟩ := ab
+      obtain ⟨rfl, hlt, rfl⟩ := h2 a cnt hn hp hc
+      have : pyCount a B step = ceilDiv (B - a) step := by
+        rw [ceilDiv_pos _ _ (by omega) hp]
+        unfold pyCount; simp only [hp, hlt, if_true]
+      simp only [walkStep, this]
+  · simp only [hp, if_false]
+    have hneg : step < 0 := by omega
+    have h1 := clampStep_neg_none n (encStart step s?) (encStop step e?) step hn hp
+    have h2 := clampStep_neg_some n (encStart step s?) (encStop step e?) step
+    have bA := pyAdjust_bounds n (-1) (n - 1) (encStart step s?) (by omega)
+    have bB := pyAdjust_bounds n (-1) (n - 1) (encStop step e?) (by omega)
+    generalize pyAdjust n (-1) (n - 1) (encStart step s?) = A at *
+    generalize pyAdjust n (-1) (n - 1) (encStop step e?) = B at *
+    cases hc : clampStep n (encStart step s?) (encStop step e?) step with
+    | none =>
+      have := h1 hc
+      have : pyCount A B step = 0 := by
+        unfold pyCount; simp only [hp, hneg, if_true, if_false]; split <;> omega
+      simp only [walkStep, this, Int.toNat_zero, List.range_zero, List.map_nil]
+    | some ab =>
+      obtain ⟨a, cnt⟩ := ab
+      obtain ⟨rfl, hlt, rfl⟩ := h2 a cnt hn hp hc
+      have : pyCount a B step = ceilDiv (a - B) (wrap64 (step * -1)) := by
+        rw [ceilDiv_neg _ _ (by omega) (by omega) hmin hneg]
+        unfold pyCount; simp only [hp, hneg, hlt, if_true, if_false]
+      simp only [walkStep, this]
+
+example : walkStep 2 (clampStep 10 1 8 2) = [1, 3, 5, 7] ∧ pyWalk 10 (some 1) (some 8) 2 = [1, 3, 5, 7] := by decide
+example : walkStep (-3) (clampStep 10 MaxInt MinInt (-3)) = [9, 6, 3, 0] ∧ pyWalk 10 none none (-3) = [9, 6, 3, 0] := by
+  decide
+example : walkStep MinInt (clampStep 10 MaxInt MinInt MinInt) = [9] ∧ pyWalk 10 none none MinInt = [9] := by decide
+
+/-! ## Every visited index is in range -/
+
+theorem pyIndices_pos (n : Int) (s? e? : Option Int) (step : Int) (hn : 0 ≤ n) (hp : step > 0) :
+    ∃ A B, pyIndices n s? e? step = (A, B, step) ∧ 0 ≤ A ∧ B ≤ n := by
+  unfold pyIndices
+  simp only [hp, if_true]
+  refine ⟨_, _, rfl, ?_, ?_⟩
+  · cases s? <;> simp only [pyAdjust] <;> omega
+  · cases e? <;> simp only [pyAdjust] <;> omega
+
+theorem pyIndices_neg (n : Int) (s? e? : Option Int) (step : Int) (hn : 0 ≤ n) (hp : step < 0) :
+    ∃ A B, pyIndices n s? e? step = (A, B, step) ∧ A ≤ n - 1 ∧ -1 ≤ B := by
+  unfold pyIndices
+  simp only [show ¬ step > 0 by omega, if_false]
+  refine ⟨_, _, rfl, ?_, ?_⟩
+  · cases s? <;> simp only [pyAdjust] <;> omega
+  · cases e? <;> simp only [pyAdjust] <;> omega
+
+/-- the `k`-th element of an ascending walk stays below `stop` -/
+theorem walk_lt_stop (A B step : Int) (k : Nat) (hp : step > 0) (hk : (k : Int) < pyCount A B step) :
+    A ≤ A + (k : Int) * step ∧ A + (k : Int) * step < B := by
+  unfold pyCount at hk
+  simp only [hp, if_true] at hk
+  split at hk
+  · have h1 : (k : Int) ≤ (B - A - 1) / step := by omega
+    have h2 := Int.mul_le_mul_of_nonneg_right h1 (show 0 ≤ step by omega)
+    have h3 := Int.ediv_mul_le (B - A - 1) (show step ≠ 0 by omega)
+    have h4 : 0 ≤ (k : Int) * step := Int.mul_nonneg (by omega) (by omega)
+    omega
+  · omega
+
+/-- the `k`-th element of a descending walk stays above `stop` -/
+theorem walk_gt_stop (A B step : Int) (k : Nat) (hp : step < 0) (hk : (k : Int) < pyCount A B step) :
+    A + (k : Int) * step ≤ A ∧ B < A + (k : Int) * step := by
+  unfold pyCount at hk
+  simp only [show ¬ step > 0 by omega, hp, if_true, if_false] at hk
+  split at hk
+  · have h1 : (k : Int) ≤ (A - B - 1) / (-step) := by omega
+    have h2 := Int.mul_le_mul_of_nonneg_right h1 (show 0 ≤ -step by omega)
+    have h3 := Int.ediv_mul_le (A - B - 1) (show -step ≠ 0 by omega)
+    have h4 : 0 ≤ (k : Int) * (-step) := Int.mul_nonneg (by omega) (by omega)
+    have h5 : (k : Int) * (-step) = -((k : Int) * step) := Int.mul_neg _ _
+    omega
+  · omega
+
+/-- `pyWalk_in_range`: for every length and all bounds, every index of the walk is a valid index -/
+theorem pyWalk_in_range (n : Int) (s? e? : Option Int) (step : Int) (hn : 0 ≤ n) (h0 : step ≠ 0) :
+    ∀ i ∈ pyWalk n s? e? step, 0 ≤ i ∧ i < n := by
+  intro i hi
+  unfold pyWalk at hi
+  by_cases hp : step > 0
+  · obtain ⟨A, B, hAB, hA, hB⟩ := pyIndices_pos n s? e? step hn hp
+    rw [hAB] at hi
+    simp only [List.mem_map, List.mem_range] at hi
+    obtain ⟨k, hk, rfl⟩ := hi
+    have := walk_lt_stop A B step k hp (by omega)
+    omega
+  · have hneg : step < 0 := by omega
+    obtain ⟨A, B, hAB, hA, hB⟩ := pyIndices_neg n s? e? step hn hneg
+    rw [hAB] at hi
+    simp only [List.mem_map, List.mem_range] at hi
+    obtain ⟨k, hk, rfl⟩ := hi
+    have := walk_gt_stop A B step k hneg (by omega)
+    omega
+
+example : ∀ i ∈ pyWalk 7 (some (-100)) none 3, 0 ≤ i ∧ i < 7 := pyWalk_in_range 7 _ _ 3 (by decide) (by decide)
+example : pyWalk 7 (some (-100)) none 3 = [0, 3, 6] := by decide
+
+/-! ## Arrays: `slice` / `sliceStep` return the elements at the walk's indices -/
+
+theorem pickStep_eq (xs : List Val) (step : Int) : ∀ (k : Nat) (a : Int),
+    pickStep xs a step k = (List.range k).map (fun (j : Nat) => xs.getD (a + (j : Int) * step).toNat .null)
+  | 0, _ => rfl
+  | k + 1, a => by
+    rw [pickStep, pickStep_eq xs step k (a + step), List.range_succ_eq_map, List.map_cons, List.map_map]
+    congr 1
+    · simp
+    · apply List.map_congr_left
+      intro j _
+      simp only [Function.comp, Nat.succ_eq_add_one, Int.natCast_add, Int.natCast_one, Int.add_mul, Int.one_mul]
+      congr 2
+      omega
+
+theorem drop_take_eq (xs : List Val) (a m : Nat) (h : a + m ≤ xs.length) :
+    (xs.drop a).take m = (List.range m).map (fun k => xs.getD (a + k) .null) := by
+  apply List.ext_getElem
+  · simp only [List.length_take, List.length_drop, List.length_map, List.length_range]; omega
+  · intro i h1 h2
+    simp only [List.length_map, List.length_range] at h2
+    simp only [List.getElem_take, List.getElem_drop, List.getElem_map, List.getElem_range]
+    rw [List.getD_eq_getElem?_getD, List.getElem?_eq_getElem (by omega)]
+    rfl
+
+theorem enum2_plain (xs : List Val) : enum2 .plain xs = false := by
+  simp [enum2]
+
+/--
+  `slice_array_spec`: on a plain array of any length (that fits a Go `int`), for all optional bounds in the step-1
+  sentinel encoding, `slice` returns exactly the elements at the indices of the Python walk, in walk order.
+-/
+theorem slice_array_spec (xs : List Val) (s? e? : Option Int) (hM : (xs.length : Int) ≤ MaxInt) :
+    slice (.arr .plain xs) (encStart 1 s?) (encStop 1 e?) =
+      .ok (.arr .plain ((pyWalk xs.length s? e? 1).map (fun i => xs.getD i.toNat .null))) := by
+  have hn : (0 : Int) ≤ xs.length := by omega
+  rw [← clamp1_spec _ s? e? hn hM]
+  have hch := clamp1_char xs.length (encStart 1 s?) (encStop 1 e?) hn
+  have bA := pyAdjust_bounds xs.length 0 xs.length (encStart 1 s?) hn
+  have bB := pyAdjust_bounds xs.length 0 xs.length (encStop 1 e?) hn
+  simp only [slice]
+  cases hc : clamp1 xs.length (encStart 1 s?) (encStop 1 e?) with
+  | none => simp only [walk1, List.map_nil]
+  | some ab =>
+    obtain ⟨a, b⟩ := ab
+    rw [hc] at hch
+    simp only at hch
+    obtain ⟨ha, hb⟩ := hch
+    simp only [walk1]
+    by_cases hab : a ≥ b
+    · have : (b - a).toNat = 0 := by omega
+      simp only [hab, if_true, this, List.range_zero, List.map_nil]
+    · simp only [hab, if_false, enum2_plain, Bool.false_eq_true]
+      rw [drop_take_eq xs a.toNat (b - a).toNat (by omega), List.map_map]
+      congr 3
+      funext k
+      simp only [Function.comp]
+      congr 1
+      omega
+
+/-- explicit bounds, any integers (no sentinel, so no upper bound on the length is needed) -/
+theorem slice_array_spec_explicit (xs : List Val) (start stop : Int) :
+    slice (.arr .plain xs) start stop =
+      .ok (.arr .plain ((pyWalk xs.length (some start) (some stop) 1).map (fun i => xs.getD i.toNat .null))) := by
+  have hn : (0 : Int) ≤ xs.length := by omega
+  rw [← clamp1_spec_explicit _ start stop hn]
+  have hch := clamp1_char xs.length start stop hn
+  have bA := pyAdjust_bounds xs.length 0 xs.length start hn
+  have bB := pyAdjust_bounds xs.length 0 xs.length stop hn
+  simp only [slice]
+  cases hc : clamp1 xs.length start stop with
+  | none => simp only [walk1, List.map_nil]
+  | some ab =>
+    obtain ⟨a, b⟩ := ab
+    rw [hc] at hch
+    simp only at hch
+    obtain ⟨ha, hb⟩ := hch
+    simp only [walk1]
+    by_cases hab : a ≥ b
+    · have : (b - a).toNat = 0 := by omega
+      simp only [hab, if_true, this, List.range_zero, List.map_nil]
+    · simp only [hab, if_false, enum2_plain, Bool.false_eq_true]
+      rw [drop_take_eq xs a.toNat (b - a).toNat (by omega), List.map_map]
+      congr 3
+      funext k
+      simp only [Function.comp]
+      congr 1
+      omega
+
+example : slice (.arr .plain [.bool true, .null, .bool false, .null]) 1 MaxInt =
+    .ok (.arr .plain ((pyWalk 4 (some 1) none 1).map
+      (fun i => [Val.bool true, .null, .bool false, .null].getD i.toNat .null))) :=
+  slice_array_spec _ (some 1) none (by decide)
+example : pyWalk 4 (some 1) none 1 = [1, 2, 3] := by decide
+
+/--
+  `sliceStep_array_spec`: the same for `sliceStep` and every non-zero 64-bit step (`MinInt` included), bounds in the
+  sentinel encoding of that step.
+-/
+theorem sliceStep_array_spec (xs : List Val) (s? e? : Option Int) (step : Int) (hM : (xs.length : Int) ≤ MaxInt)
+    (h0 : step ≠ 0) (hmin : MinInt ≤ step) :
+    sliceStep (.arr .plain xs) (encStart step s?) (encStop step e?) step =
+      .ok (.arr .plain ((pyWalk xs.length s? e? step).map (fun i => xs.getD i.toNat .null))) := by
+  have hn : (0 : Int) ≤ xs.length := by omega
+  rw [← clampStep_spec _ s? e? step hn hM h0 hmin]
+  simp only [sliceStep]
+  cases hc : clampStep xs.length (encStart step s?) (encStop step e?) step with
+  | none => simp only [walkStep, List.map_nil]
+  | some ab =>
+    obtain ⟨a, cnt⟩ := ab
+    simp only [walkStep, enum2_plain, Bool.false_eq_true, if_false, pickStep_eq, List.map_map]
+    rfl
+
+example : sliceStep (.arr .plain [.bool true, .null, .bool false, .null]) MaxInt MinInt (-2) =
+    .ok (.arr .plain ((pyWalk 4 none none (-2)).map
+      (fun i => [Val.bool true, .null, .bool false, .null].getD i.toNat .null))) :=
+  sliceStep_array_spec _ none none (-2) (by decide) (by decide) (by decide)
+example : pyWalk 4 none none (-2) = [3, 1] := by decide
+
+/-! ## Empty walk: the empty array, whatever the array's tag -/
+
+/-- a `clampStep` result `some (a, cnt)` always has `cnt ≥ 1`: `none` is the only encoding of the empty walk -/
+theorem clampStep_cnt_pos (n s e step a cnt : Int) (hn : 0 ≤ n) (hM : n ≤ MaxInt) (h0 : step ≠ 0)
+    (hmin : MinInt ≤ step) (h : clampStep n s e step = some (a, cnt)) : 1 ≤ cnt := by
+  by_cases hp : step > 0
+  · obtain ⟨_, hlt, rfl⟩ := clampStep_pos_some n s e step a cnt hn hp h
+    rw [ceilDiv_pos _ _ (by omega) hp]
+    have := Int.ediv_nonneg (a := pyAdjust n 0 n e - pyAdjust n 0 n s - 1) (b := step) (by omega) (by omega)
+    omega
+  · have hneg : step < 0 := by omega
+    obtain ⟨_, hlt, rfl⟩ := clampStep_neg_some n s e step a cnt hn hp h
+    have bA := pyAdjust_bounds n (-1) (n - 1) s (by omega)
+    have bB := pyAdjust_bounds n (-1) (n - 1) e (by omega)
+    rw [ceilDiv_neg _ _ (by omega) (by omega) hmin hneg]
+    have := Int.ediv_nonneg (a := pyAdjust n (-1) (n - 1) s - pyAdjust n (-1) (n - 1) e - 1) (b := -step)
+      (by omega) (by omega)
+    omega
+
+/--
+  `empty_walk`: when the Python walk is empty the result is the empty array — not null, not an error, and (because
+  the empty result does not depend on element order) not `nondet` either, for an array of *any* tag.
+-/
+theorem empty_walk_slice (t : ATag) (xs : List Val) (s? e? : Option Int) (hM : (xs.length : Int) ≤ MaxInt)
+    (hw : pyWalk xs.length s? e? 1 = []) :
+    slice (.arr t xs) (encStart 1 s?) (encStop 1 e?) = .ok (.arr .plain []) := by
+  have hn : (0 : Int) ≤ xs.length := by omega
+  rw [← clamp1_spec _ s? e? hn hM] at hw
+  simp only [slice]
+  cases hc : clamp1 xs.length (encStart 1 s?) (encStop 1 e?) with
+  | none => rfl
+  | some ab =>
+    obtain ⟨a, b⟩ := ab
+    rw [hc] at hw
+    simp only [walk1, List.map_eq_nil_iff, List.range_eq_nil] at hw
+    have hab : a ≥ b := by omega
+    simp only [hab, if_true]
+
+theorem empty_walk_sliceStep (t : ATag) (xs : List Val) (s? e? : Option Int) (step : Int)
+    (hM : (xs.length : Int) ≤ MaxInt) (h0 : step ≠ 0) (hmin : MinInt ≤ step)
+    (hw : pyWalk xs.length s? e? step = []) :
+    sliceStep (.arr t xs) (encStart step s?) (encStop step e?) step = .ok (.arr .plain []) := by
+  have hn : (0 : Int) ≤ xs.length := by omega
+  rw [← clampStep_spec _ s? e? step hn hM h0 hmin] at hw
+  simp only [sliceStep]
+  cases hc : clampStep xs.length (encStart step s?) (encStop step e?) step with
+  | none => rfl
+  | some ab =>
+    obtain ⟨a, cnt⟩ := ab
+    rw [hc] at hw
+    simp only [walkStep, List.map_eq_nil_iff, List.range_eq_nil] at hw
+    have := clampStep_cnt_pos _ _ _ _ a cnt hn hM h0 hmin hc
+    omega
+
+theorem empty_walk (t : ATag) (xs : List Val) (s? e? : Option Int) (step : Int)
+    (hM : (xs.length : Int) ≤ MaxInt) (h0 : step ≠ 0) (hmin : MinInt ≤ step)
+    (hw : pyWalk xs.length s? e? step = []) :
+    (step = 1 → slice (.arr t xs) (encStart 1 s?) (encStop 1 e?) = .ok (.arr .plain [])) ∧
+    sliceStep (.arr t xs) (encStart step s?) (encStop step e?) step = .ok (.arr .plain []) :=
+  ⟨fun h1 => empty_walk_slice t xs s? e? hM (h1 ▸ hw), empty_walk_sliceStep t xs s? e? step hM h0 hmin hw⟩
+
+example : pyWalk 3 (some 2) (some 1) 1 = [] := by decide
+example : slice (.arr .enum [.null, .null, .null]) 2 1 = .ok (.arr .plain []) :=
+  empty_walk_slice .enum _ (some 2) (some 1) (by decide) (by decide)
+example : sliceStep (.arr .enum [.null, .null, .null]) 1 2 (-1) = .ok (.arr .plain []) :=
+  empty_walk_sliceStep .enum _ (some 1) (some 2) (-1) (by decide) (by decide) (by decide) (by decide)
+example : slice (.arr .plain []) 0 MaxInt = .ok (.arr .plain []) :=
+  empty_walk_slice .plain [] none none (by decide) (by decide)
+
+/-! ## No evaluation error: the only slice error is the parse error for step 0 -/
+
+theorem slice_no_error (v : Val) (start stop : Int) :
+    (∀ cs, slice v start stop ≠ .err cs) ∧ (∀ w, slice v start stop ≠ .panic w) := by
+  unfold slice
+  constructor <;> intro x <;> repeat' split
+  all_goals (intro h; cases h)
+
+theorem sliceStep_no_error (v : Val) (start stop step : Int) :
+    (∀ cs, sliceStep v start stop step ≠ .err cs) ∧ (∀ w, sliceStep v start stop step ≠ .panic w) := by
+  constructor <;> intro x h <;> cases v <;> simp only [sliceStep] at h <;> repeat' split at h
+  all_goals cases h
+
+/--
+  `only_step_zero_errors`: evaluation of a slice never fails — for any value, any integers (even a zero step, which the
+  parser has already rejected: `indexP` fails with `invalidSliceStep`, category `invalid-value`, exactly when
+  `step = 0`).
+-/
+theorem only_step_zero_errors (v : Val) (start stop step : Int) :
+    (∀ cs, slice v start stop ≠ .err cs) ∧ (∀ w, slice v start stop ≠ .panic w) ∧
+    (∀ cs, sliceStep v start stop step ≠ .err cs) ∧ (∀ w, sliceStep v start stop step ≠ .panic w) :=
+  ⟨(slice_no_error v start stop).1, (slice_no_error v start stop).2,
+   (sliceStep_no_error v start stop step).1, (sliceStep_no_error v start stop step).2⟩
+
+example : slice (.num default) 3 1 = .ok .null := rfl
+example : sliceStep (.arr .plain [.null]) 0 MaxInt 0 = .ok (.arr .plain []) := rfl
+
+/-! ## The closed form of the specification is the `while` loop it abbreviates
+
+  `pyWalk` is defined through CPython's slice-length formula; this section shows it is the list produced by
+  `i = start; while i < stop (resp. > stop): yield i; i += step` (`Spec.pyLoop`, with `n` iterations of fuel). -/
+
+theorem pyCount_nonneg (A B step : Int) : 0 ≤ pyCount A B step := by
+  unfold pyCount
+  split
+  · split
+    · have := Int.ediv_nonneg (a := B - A - 1) (b := step) (by omega) (by omega); omega
+    · omega
+  · split
+    · split
+      · have := Int.ediv_nonneg (a := A - B - 1) (b := -step) (by omega) (by omega); omega
+      · omega
+    · omega
+
+theorem pyCount_succ_pos (A B step : Int) (hp : step > 0) (h : A < B) :
+    pyCount A B step = pyCount (A + step) B step + 1 := by
+  unfold pyCount
+  simp only [hp, h, if_true]
+  split
+  · have e : B - A - 1 = (B - (A + step) - 1) + 1 * step := by omega
+    rw [e, Int.add_mul_ediv_right _ _ (by omega)]
+  · rw [Int.ediv_eq_zero_of_lt (by omega) (by omega)]
+
+theorem pyCount_succ_neg (A B step : Int) (hp : step < 0) (h : B < A) :
+    pyCount A B step = pyCount (A + step) B step + 1 := by
+  unfold pyCount
+  simp only [show ¬ step > 0 by omega, hp, h, if_true, if_false]
+  split
+  · have e : A - B - 1 = (A + step - B - 1) + 1 * (-step) := by omega
+    rw [e, Int.add_mul_ediv_right _ _ (by omega)]
+  · rw [Int.ediv_eq_zero_of_lt (by omega) (by omega)]
+
+theorem pyLoop_eq (B step : Int) (h0 : step ≠ 0) : ∀ (fuel : Nat) (A : Int), pyCount A B step ≤ fuel →
+    pyLoop B step fuel A = (List.range (pyCount A B step).toNat).map (fun (k : Nat) => A + (k : Int) * step)
+  | 0, A, h => by
+    have := pyCount_nonneg A B step
+    have : (pyCount A B step).toNat = 0 := by omega
+    simp only [pyLoop, this, List.range_zero, List.map_nil]
+  | fuel + 1, A, h => by
+    have hnn := pyCount_nonneg (A + step) B step
+    unfold pyLoop
+    by_cases hc : (step > 0 ∧ A < B) ∨ (step < 0 ∧ A > B)
+    · have hs : pyCount A B step = pyCount (A + step) B step + 1 := by
+        rcases hc with ⟨h1, h2⟩ | ⟨h1, h2⟩
+        · exact pyCount_succ_pos A B step h1 h2
+        · exact pyCount_succ_neg A B step h1 h2
+      have ht : (pyCount A B step).toNat = (pyCount (A + step) B step).toNat + 1 := by omega
+      rw [if_pos hc, pyLoop_eq B step h0 fuel (A + step) (by omega), ht, List.range_succ_eq_map, List.map_cons,
+        List.map_map]
+      congr 1
+      · simp
+      · apply List.map_congr_left
+        intro k _
+        simp only [Function.comp, Nat.succ_eq_add_one, Int.natCast_add, Int.natCast_one, Int.add_mul, Int.one_mul]
+        omega
+    · have : pyCount A B step = 0 := by
+        unfold pyCount
+        split
+        · split <;> omega
+        · split
+          · split <;> omega
+          · rfl
+      rw [if_neg hc, this]
+      rfl
+
+theorem pyCount_le (n A B step : Int) (hn : 0 ≤ n) (h0 : step ≠ 0)
+    (hb : if step > 0 then 0 ≤ A ∧ B ≤ n else A ≤ n - 1 ∧ -1 ≤ B) : pyCount A B step ≤ n := by
+  have hnn := pyCount_nonneg A B step
+  by_cases hz : pyCount A B step = 0
+  · omega
+  · have hk : (((pyCount A B step - 1).toNat : Nat) : Int) = pyCount A B step - 1 := by omega
+    generalize (pyCount A B step - 1).toNat = k at hk
+    by_cases hp : step > 0
+    · simp only [hp, if_true] at hb
+      have := walk_lt_stop A B step k hp (by omega)
+      have e : (k : Int) * step = (k : Int) * (step - 1) + k := by rw [Int.mul_sub, Int.mul_one]; omega
+      have : 0 ≤ (k : Int) * (step - 1) := Int.mul_nonneg (by omega) (by omega)
+      omega
+    · simp only [hp, if_false] at hb
+      have := walk_gt_stop A B step k (by omega) (by omega)
+      have e : (k : Int) * step = -((k : Int) * (-step - 1) + k) := by
+        rw [Int.mul_sub, Int.mul_one, Int.mul_neg]; omega
+      have : 0 ≤ (k : Int) * (-step - 1) := Int.mul_nonneg (by omega) (by omega)
+      omega
+
+theorem pyWalk_eq_loop (n : Int) (s? e? : Option Int) (step : Int) (hn : 0 ≤ n) (h0 : step ≠ 0) :
+    pyWalk n s? e? step = pyLoop (pyIndices n s? e? step).2.1 step n.toNat (pyIndices n s? e? step).1 := by
+  unfold pyWalk
+  by_cases hp : step > 0
+  · obtain ⟨A, B, hAB, hA, hB⟩ := pyIndices_pos n s? e? step hn hp
+    rw [hAB]
+    have := pyCount_le n A B step hn h0 (by simp only [hp, if_true]; omega)
+    exact (pyLoop_eq B step h0 n.toNat A (by omega)).symm
+  · obtain ⟨A, B, hAB, hA, hB⟩ := pyIndices_neg n s? e? step hn (by omega)
+    rw [hAB]
+    have := pyCount_le n A B step hn h0 (by simp only [hp, if_false]; omega)
+    exact (pyLoop_eq B step h0 n.toNat A (by omega)).symm
+
+example : pyWalk 10 (some (-3)) none 1 = pyLoop 10 1 10 7 := pyWalk_eq_loop 10 _ _ 1 (by decide) (by decide)
+example : pyLoop 10 1 10 7 = [7, 8, 9] := by decide
+
+/-! ## The parser's encoding, on concrete expressions
+
+  `encStart`/`encStop` restate what `indexP` does; the general link is covered by the differential tests of the
+  parser model. These closed instances tie the two together for each shape of a slice expression (kernel evaluation of
+  the parser model, no axioms beyond the usual ones). -/
+
+private def parsesTo (expr : Bytes) (f : INode → Bool) : Bool :=
+  match compile expr with
+  | .ok n => f n
+  | .error _ => false
+
+/-- `[::0]` : the one slice error, raised by the parser, category invalid-value -/
+example : (match compile [0x5B, 0x3A, 0x3A, 0x30, 0x5D] with | .error .invalidSliceStep => true | _ => false) = true := by
+  decide +kernel
+example : parseCat .invalidSliceStep = .invalidValue := rfl
+/-- `[:]` ↦ `slice (encStart 1 none) (encStop 1 none)` -/
+example : parsesTo [0x5B, 0x3A, 0x5D] (fun n => match n with
+    | .projectArray (.sliceCurrent a b) .current => a == encStart 1 none && b == encStop 1 none
+    | _ => false) = true := by decide +kernel
+/-- `[1:]` ↦ `slice 1 (encStop 1 none)` -/
+example : parsesTo [0x5B, 0x31, 0x3A, 0x5D] (fun n => match n with
+    | .projectArray (.sliceCurrent a b) .current => a == encStart 1 (some 1) && b == encStop 1 none
+    | _ => false) = true := by decide +kernel
+/-- `[::1]` ↦ `slice`, not `sliceStep` -/
+example : parsesTo [0x5B, 0x3A, 0x3A, 0x31, 0x5D] (fun n => match n with
+    | .projectArray (.sliceCurrent a b) .current => a == encStart 1 none && b == encStop 1 none
+    | _ => false) = true := by decide +kernel
+/-- `[::-1]` ↦ `sliceStep (encStart (-1) none) (encStop (-1) none) (-1)` -/
+example : parsesTo [0x5B, 0x3A, 0x3A, 0x2D, 0x31, 0x5D] (fun n => match n with
+    | .projectArray (.sliceStepCurrent a b c) .current =>
+      a == encStart (-1) none && b == encStop (-1) none && c == -1
+    | _ => false) = true := by decide +kernel
+/-- `[:1:2]` ↦ `sliceStep (encStart 2 none) 1 2` -/
+example : parsesTo [0x5B, 0x3A, 0x31, 0x3A, 0x32, 0x5D] (fun n => match n with
+    | .projectArray (.sliceStepCurrent a b c) .current =>
+      a == encStart 2 none && b == encStop 2 (some 1) && c == 2
+    | _ => false) = true := by decide +kernel
 
 end Jmes.C12
